@@ -106,7 +106,11 @@ def counter_field(ctx, cfg='A'):
             continue
         here = set()
         for e in it.effs:
-            if e[0] != 'w' or not str(e[3] or '').startswith(RT):
+            # (a field of Runtime, or of a private record of the runtime module that Runtime embeds: `progress: Progress { limit, dispatched }`)
+            if e[0] != 'w':
+                continue
+            adt = str(e[3] or '')
+            if not (adt.startswith(RT) or (adt.startswith('des::runtime::') and 'bench' not in adt and 'Profiler' not in adt)):
                 continue
             if e[1] == 'inc':
                 here.add(e[2])
@@ -120,6 +124,31 @@ def counter_field(ctx, cfg='A'):
                 here.add(e[2])
         cands = here if cands is None else (cands & here)
     res = next(iter(cands)) if cands and len(cands) == 1 else None
+    ctx._roles[key] = res
+    return res
+
+
+def limit_fields(ctx, cfg='A'):
+    """role: where the governing limit lives.  Returns (base, override): the dispatch step asks `self.<base>` (pinned: `limit`), or — after
+    a private representation change — `self.<override>.as_ref().unwrap_or(&self.<base>)` with `<override>: Option<RuntimeLimit>` holding
+    the limit of the step that is executing.  (None, None) if the receiver of the limit test has neither shape."""
+    key = ('limit_fields', cfg)
+    if key in ctx.__dict__.setdefault('_roles', {}):
+        return ctx._roles[key]
+    f, its, form = dispatch_iterations(ctx, cfg)
+    res = (None, None)
+    if f is not None:
+        for s in f.calls_to('des::runtime::limit::RuntimeLimit::applies'):
+            r = peel(f.expr_operand(s.args[0], s.b, 'T'))
+            if r[0] == 'field':
+                res = (r[2], None)
+            elif r[0] == 'call' and r[1] == 'std::option::Option::unwrap_or' and len(r[2]) == 2:
+                o, b = peel_c(r[2][0]), peel_c(r[2][1])
+                while o[0] == 'call' and o[1].split('::')[-1] in ('as_ref', 'as_deref') and o[2]:
+                    o = peel_c(o[2][0])
+                if o[0] == 'field' and b[0] == 'field':
+                    res = (b[2], o[2])
+            break
     ctx._roles[key] = res
     return res
 
